@@ -281,7 +281,14 @@ def check(run, model, tier):
                 run.inst('DESC.per-name', mi, 'setattr(cls, name, ThreadSafeAttribute(initial 0))', ok,
                          '' if ok else 'a new attribute does not start at 0', node=n)
                 # inside a loop over cls._attributes
-                par_ok = any(isinstance(p, ast.For) and '_attributes' in norm(p.iter) and any(x is n for x in ast.walk(p))
+                def over_attributes(it_):
+                    if '_attributes' in norm(it_):
+                        return True
+                    if isinstance(it_, ast.Name):       # a local bound to (a copy / the set of) cls._attributes
+                        ds2 = [d_ for d_ in local_defs(mi.node).get(it_.id, []) if isinstance(d_, ast.AST)]
+                        return bool(ds2) and all('_attributes' in norm(d_) for d_ in ds2)
+                    return False
+                par_ok = any(isinstance(p, ast.For) and over_attributes(p.iter) and any(x is n for x in ast.walk(p))
                              for p in walk_shallow(mi.node))
                 run.inst('DESC.per-name', mi, 'one descriptor per declared name', par_ok,
                          '' if par_ok else 'descriptor creation is not inside a loop over _attributes', node=n)
